@@ -295,6 +295,13 @@ def synthetic_runs(ck: Check, calc, n_runs: int, reqs, expect, stats, samples):
                     payload = {}
                 events.append({"name": rng.choice(["A", "B", "C", "D"]), "payload": payload, "method": "use",
                                "tag": tag, "handler": None})
+                if tag in (Tag.DAMAGE, Tag.DOT) and rng.random() < 0.3:
+                    # the same hit again in the same play, differing only in its modifier (repeated ticks whose
+                    # modifier changes mid-play, e.g. a consumed stack)
+                    again = dict(events[-1])
+                    again["payload"] = dict(payload, modifier=Stat(final_damage_multiplier=rng.choice([10.0, 25.0]),
+                                                                 boss_damage_multiplier=rng.choice([0.0, 30.0])).model_dump())
+                    events.append(again)
             pl = PlayLog(clock=clock, action={"name": "A", "method": "use", "payload": None}, events=events,
                          checkpoint=Checkpoint(store_ckpt={}))
             buff = rand_sparse_stat(rng)
